@@ -16,11 +16,14 @@ func init() { core.Register(P{}) }
 func (P) ID() string { return "C09" }
 func (P) Rule() string {
 	return "case = one two-way session of 1..6 interleaved streams, each message with 1..4 DATA frames of 0..70000 bytes (a third padded " +
-		"with 0/1/10/255 bytes), fed frame by frame into the two real relays through the verif hook and interleaved with receiver-side " +
-		"SETTINGS (INITIAL_WINDOW_SIZE 0/1/10/65535/2^31-1, MAX_FRAME_SIZE 16384..2^24-1 non-decreasing) and stream/connection " +
-		"WINDOW_UPDATEs of 1..2^31-1; every line (frames delivered to each endpoint, both relays' windows and queues) is compared with the " +
-		"Lean model; distinct by hash of the op list; non-trivial when some frame waited in an output queue and a WINDOW_UPDATE or SETTINGS " +
-		"released at least one queued DATA frame"
+		"with 0/1/10/255 bytes; one case in four with a response body above 65535 octets whose receiver granted the stream window before the " +
+		"first response frame), fed frame by frame into the two real relays through the verif hook and interleaved with receiver-side " +
+		"SETTINGS as LISTS (an identifier up to three times - the last value counts -, unknown identifiers, any order; INITIAL_WINDOW_SIZE " +
+		"0/1/2/9/10/1000/16384/65535/65536/100000/2^31-1, MAX_FRAME_SIZE 16384..2^24-1 with a non-decreasing final value, " +
+		"HEADER_TABLE_SIZE) and stream/connection WINDOW_UPDATEs of 1..2^31-1, also for streams on which nothing has travelled towards the " +
+		"grantor yet; every line (frames delivered to each endpoint, both relays' windows and queues) is compared with the Lean model; " +
+		"distinct by hash of the op list; non-trivial when some frame waited in an output queue and a WINDOW_UPDATE or SETTINGS released at " +
+		"least one queued DATA frame"
 }
 
 var queued = regexp.MustCompile(`:-?\d+:[dhupr]\d`)
